@@ -71,9 +71,12 @@ def payload_flow(chk, cls):
             for a in argnodes:
                 if isinstance(a, (ast.Tuple, ast.List)):
                     flat.extend(a.elts)
+                elif isinstance(a, ast.Dict):
+                    flat.extend(a.values)
                 elif isinstance(a, ast.Call):
                     flat.append(a)
                     flat.extend(a.args)
+                    flat.extend(k.value for k in a.keywords)
                 else:
                     flat.append(a)
             if not any(isinstance(a, ast.Name) and a.id == pname for a in flat):
@@ -97,6 +100,11 @@ def payload_flow(chk, cls):
                 sk = {"create_task": "task", "ext:threading.Thread": "thread", "start_soon": "nursery", "start": "nursery"}.get(prim, kind)
                 for a in carried:
                     callee = a.func if isinstance(a, ast.Call) else a
+                    partial_args, partial_kw = None, {}
+                    if isinstance(a, ast.Call) and prog.resolve(fi.module, a.func) == "ext:functools.partial" and a.args:
+                        # partial(self.m, payload): the callable is m, the bound arguments are handed over
+                        callee, partial_args = a.args[0], list(a.args[1:])
+                        partial_kw = {k.arg: k.value for k in a.keywords if k.arg}
                     dd = util.dotted(callee) or ""
                     # channel send: the payload re-appears as the loop variable of the receiving side
                     if ch and dd == "self.%s.send" % ch:
@@ -106,24 +114,43 @@ def payload_flow(chk, cls):
                         else:
                             todo.append((recv[0], recv[1], kind))
                         continue
+                    m = None
                     if dd.startswith("self."):
                         m = prog.lookup_method(cls, dd.split(".")[1])
-                        if m is not None:
-                            # position of the payload among the arguments handed over
-                            if isinstance(a, ast.Call):
+                    elif isinstance(callee, ast.Name):
+                        r_ = prog.resolve(fi.module, callee)
+                        m = prog.functions.get(r_) if r_ else None
+                        if m is not None and m.cls is not None:
+                            m = None
+                    if m is not None:
+                        if True:
+                            # position (or keyword) of the payload among the arguments handed over
+                            handed_kw = dict(partial_kw)
+                            if partial_args is not None:
+                                handed = partial_args + [x for x in c.args if x is not a]
+                            elif isinstance(a, ast.Call):
                                 handed = list(a.args)
+                                handed_kw.update({k.arg: k.value for k in a.keywords if k.arg})
                             elif prim == "ext:threading.Thread":
                                 handed = []
                                 for k in c.keywords:
                                     if k.arg == "args" and isinstance(k.value, (ast.Tuple, ast.List)):
                                         handed = list(k.value.elts)
+                                    if k.arg == "kwargs" and isinstance(k.value, ast.Dict):
+                                        handed_kw.update({kk.value: vv for kk, vv in zip(k.value.keys, k.value.values) if isinstance(kk, ast.Constant)})
+                                    if k.arg == "kwargs" and isinstance(k.value, ast.Call) and util.dotted(k.value.func) == "dict":
+                                        handed_kw.update({kw2.arg: kw2.value for kw2 in k.value.keywords if kw2.arg})
                             else:
                                 handed = [x for x in c.args if x is not a]
                                 if prim == "run_in_executor":
                                     handed = handed[1:]
+                            sk2 = sk if prim in ("create_task", "ext:threading.Thread", "start_soon", "start") else kind
                             for i, h in enumerate(handed):
                                 if isinstance(h, ast.Name) and h.id == pname and i < len(m.params()):
-                                    todo.append((m, m.params()[i], sk if prim in ("create_task", "ext:threading.Thread", "start_soon", "start") else kind))
+                                    todo.append((m, m.params()[i], sk2))
+                            for kname, h in handed_kw.items():
+                                if isinstance(h, ast.Name) and h.id == pname and kname in m.params():
+                                    todo.append((m, kname, sk2))
                 continue
             if ch and d == "self.%s.send_nowait" % ch or (ch and d == "self.%s.send" % ch):
                 uses += 1
@@ -143,30 +170,46 @@ def payload_flow(chk, cls):
 
 
 def receiving_side(prog, cls, ch):
-    """(function, loop variable) of `async for x in <receive side>` paired with the send channel"""
+    """(function, variable) that carries a received payload: the target of `async for x in <receive side>` or of
+    `x = await <receive side>.receive()`, in the function that opens the channel or in a helper (own method or
+    module-level function, any depth) the receive side is handed to"""
+    start = None
     for fis in cls.methods.values():
         for fi in fis:
-            recv_name = None
             for n in ast.walk(fi.node):
                 if isinstance(n, ast.Assign) and isinstance(n.value, ast.Call) and prog.resolve(cls.module, n.value.func) == "ext:trio.open_memory_channel":
                     t = n.targets[0]
                     if isinstance(t, ast.Tuple) and len(t.elts) == 2 and isinstance(t.elts[1], ast.Name):
-                        recv_name = t.elts[1].id
-                        # the receive side may be handed to a helper that owns the loop
-                        for c in ast.walk(fi.node):
-                            if isinstance(c, ast.Call) and any(isinstance(a, ast.Name) and a.id == recv_name for a in c.args) and isinstance(c.func, ast.Attribute) and util.dotted(c.func.value) == "self":
-                                h = prog.lookup_method(cls, c.func.attr)
-                                if h is not None:
-                                    idx = [i for i, a in enumerate(c.args) if isinstance(a, ast.Name) and a.id == recv_name][0]
-                                    if idx < len(h.params()):
-                                        hp = h.params()[idx]
-                                        for n2 in ast.walk(h.node):
-                                            if isinstance(n2, (ast.AsyncFor, ast.For)) and isinstance(n2.iter, ast.Name) and n2.iter.id == hp and isinstance(n2.target, ast.Name):
-                                                return h, n2.target.id
-            if recv_name:
-                for n in ast.walk(fi.node):
-                    if isinstance(n, (ast.AsyncFor, ast.For)) and isinstance(n.iter, ast.Name) and n.iter.id == recv_name and isinstance(n.target, ast.Name):
-                        return fi, n.target.id
+                        start = (fi, t.elts[1].id)
+    if start is None:
+        return None
+    seen, todo = set(), [start]
+    while todo:
+        fi, name = todo.pop()
+        if (fi.qual, name) in seen:
+            continue
+        seen.add((fi.qual, name))
+        for n in ast.walk(fi.node):
+            if isinstance(n, (ast.AsyncFor, ast.For)) and isinstance(n.iter, ast.Name) and n.iter.id == name and isinstance(n.target, ast.Name):
+                return fi, n.target.id
+            if isinstance(n, ast.Assign) and len(n.targets) == 1 and isinstance(n.targets[0], ast.Name):
+                v = n.value.value if isinstance(n.value, ast.Await) else n.value
+                if isinstance(v, ast.Call) and isinstance(v.func, ast.Attribute) and v.func.attr in ("receive", "receive_nowait") and isinstance(v.func.value, ast.Name) and v.func.value.id == name:
+                    return fi, n.targets[0].id
+        for c in ast.walk(fi.node):
+            if not isinstance(c, ast.Call):
+                continue
+            idx = [i for i, a in enumerate(c.args) if isinstance(a, ast.Name) and a.id == name]
+            if not idx:
+                continue
+            h = None
+            if isinstance(c.func, ast.Attribute) and util.dotted(c.func.value) == "self":
+                h = prog.lookup_method(cls, c.func.attr)
+            elif isinstance(c.func, ast.Name):
+                r = prog.resolve(fi.module, c.func)
+                h = prog.functions.get(r) if r else None
+            if h is not None and idx[0] < len(h.params()):
+                todo.append((h, h.params()[idx[0]]))
     return None
 
 
@@ -196,7 +239,7 @@ def monitors_and_outcomes(chk):
             chk.ok("O1.1", name, "registered payloads are invoked only in %s" % sorted("%s (spawned as %s)" % (m, k) for m, k in real.items()), node=cls.node)
         found[cls.qual] = (cls, real)
         for mname, kind in real.items():
-            outcome_table(chk, cls, prog.lookup_method(cls, mname), kind)
+            outcome_table(chk, cls, common.monitor_fi(prog, cls, mname), kind)
     return found
 
 
@@ -357,6 +400,7 @@ def propagation_to_run(chk, found):
             # nursery-monitored runner: the failure surfaces at the nursery block of the function run by trio.run,
             # then at trio.run itself; neither function may swallow it
             hops = []
+            ts = common.trio_structure(prog, cls)
             for fis in cls.methods.values():
                 for f in fis:
                     for node in ast.walk(f.node):
@@ -364,7 +408,11 @@ def propagation_to_run(chk, found):
                             hops.append((f, lambda ct: ct[0] == "call" and ct[1] == ("glob", "ext:trio.run"), "trio.run"))
                         if isinstance(node, ast.Call) and isinstance(node.func, ast.Attribute) and node.func.attr == "start_soon":
                             hops.append((f, lambda ct: ct[0] == "call" and ct[1][0] == "attr" and ct[1][2] == "start_soon", "the nursery block"))
-            if len(hops) < 2:
+                        # an owned coroutine awaited by another one: the failure passes through the awaiting function
+                        if ts is not None and f.name in ts["owned"] and isinstance(node, ast.Call) and isinstance(node.func, ast.Attribute) and util.dotted(node.func.value) == "self" and node.func.attr in ts["owned"] and node.func.attr != f.name:
+                            hops.append((f, lambda ct, nm=node.func.attr: ct[0] == "call" and ct[1] == ("attr", SELF, nm), "its await of %s" % node.func.attr))
+            # handed form: run_in_executor(None, trio.run, entry) -- the failure surfaces at that await (checked above)
+            if len(hops) < (2 if ts is None or ts["form"] == "call" else 1):
                 chk.undecided(rule, cls.qual, "propagation path of the trio runner (nursery -> trio.run) not found", node=cls.node)
                 ok = False
             for f, site, what in hops:
